@@ -460,6 +460,9 @@ def run(ctx: Ctx) -> None:
             ctx.sample({"facade_request": fl[0][:300]})
     finally:
         drv.close()
+    f_ = chains_after_parses(ctx)
+    if f_ is not None:
+        ctx.findings.append(f_)
     ctx.partial += []
     ctx.assumptions += [
         "rule functions are compared by identity; alt lists are lists of str",
@@ -467,11 +470,54 @@ def run(ctx: Ctx) -> None:
     ]
 
 
+CHAIN_DOCS = ["| a | b |\n|---|---|\n| 1 | 2 |\n", "> q\nlazy\n> r\n", "- a\n- b\n\n1. c\n", "para\n***\n# h\n```\nx\n```\n",
+              "[r]: /u 'T'\n\n[r]\n", "a\n===\n<div>\nx\n</div>\n", "a|b\n-|-\nc|d\n> q\n", "- > | a |\n  > |---|\n  > | 1 |\nlazy\n"]
+
+
+def chains_after_parses(ctx: Ctx):
+    """what the ruler reports for every chain stays `enabled rules in order, filtered by alt` across parses: user rules with a
+    one-chain alt (also for chains no built-in rule names) in front of `paragraph`, documents that make every rule that runs a
+    terminator chain run it; compared after every parse.  Returns a Finding or None."""
+    from markdown_it import MarkdownIt
+
+    chains = ["", "paragraph", "reference", "blockquote", "list", "table", "custom", "nonexistent"]
+    for preset, extra in (("commonmark", ["table"]), ("js-default", []), ("zero", ["table", "blockquote", "list", "fence", "hr", "heading", "lheading", "reference", "html_block", "code"])):
+        md = MarkdownIt(preset)
+        if extra:
+            md.enable(extra)
+        calls = []
+        for ch in chains[1:-1]:
+            def probe(state, startLine, endLine, silent, _ch=ch):
+                calls.append(_ch)
+                return False
+            md.block.ruler.before("paragraph", "probe_" + ch, probe, {"alt": [ch]})
+
+        def spec(chain):
+            return [r.fn for r in md.block.ruler.__rules__ if r.enabled and (chain == "" or chain in r.alt)]
+
+        history = []
+        for doc in CHAIN_DOCS + CHAIN_DOCS[:3]:
+            md.parse(doc)
+            history.append(doc)
+            ctx.count((preset, doc, "chains-after-parse"), nontrivial=True)
+            for chain in chains:
+                got = md.block.ruler.getRules(chain)
+                if list(got) != spec(chain):
+                    names = {id(r.fn): r.name for r in md.block.ruler.__rules__}
+                    return Finding("applied!=reported", f"after parsing, getRules({chain!r}) is no longer the enabled rules filtered by alt",
+                                   {"preset": preset, "enabled_extra": extra, "parsed": history, "chain": chain,
+                                    "getRules": [names.get(id(f), "?") for f in got], "expected": [names.get(id(f), "?") for f in spec(chain)]})
+    return None
+
+
 def search(ctx: Ctx):
     """Directed search when a proof obligation or the correspondence is broken: exhaustive short
     histories on the implementation with the oracle."""
     import itertools
 
+    f = chains_after_parses(Ctx(ctx.pid, "quick", ctx.seed))
+    if f is not None:
+        return f
     atoms = [
         ("push", "a", 1, ["x"]), ("push", "b", 2, []), ("get", ""), ("get", "x"),
         ("enable", ["a"], False), ("disable", ["a"], False), ("disable", ["b", "zz"], False),
@@ -505,6 +551,8 @@ def search(ctx: Ctx):
 def replay(ctx: Ctx, obj: dict) -> bool:
     if obj.get("kind") == "unknown-name-not-rejected":
         return facade_unknown_ok(obj["preset"], obj["op"], obj["names"], obj["ignoreInvalid"])
+    if "parsed" in obj:
+        return chains_after_parses(Ctx(ctx.pid, "quick", 0)) is None
     if "history" in obj:
         ops = [tuple(o) for o in obj["history"]]
         outs, bad, _ = run_impl(ops, None)
